@@ -52,6 +52,8 @@ FIXED = [
   "a defseq sequence written with `rsft` / `rctl` / `rmet` (or `RS-` / `RC-` / `RM-`) was accepted but could never be typed: the table stored the right-hand code, the run time folds to the left-hand code before the lookup (also seen by C11: name in defseq context)"),
  ("F36", "C02", "fix: tap-dance with an empty action list is a configuration error",
   "`(tap-dance 200 ())` / `(tap-dance-eager 200 ())` were accepted; the first press indexed the empty action list and panicked"),
+ ("F37", "C03", "fix: defseq with modifier prefixes on an empty list is a configuration error",
+  "`(defseq v (S-A-()))` panicked in parse_sequence_keys (`expect(\"had to be pressed to be released\")`); found by the thorough tier (20 M inputs, seed 7)"),
 ]
 log = subprocess.check_output(["git", "-C", "/repo", "log", "--format=%h %s"]).decode().splitlines()
 out = []
